@@ -92,7 +92,16 @@ func checkDocumentShape(node *yaml.Node, target reflect.Type) error {
 				continue
 			}
 
-			if err := checkDocumentShape(node.Content[i+1], typeOfMember(target, key.Value)); err != nil {
+			member := typeOfMember(target, key.Value)
+
+			// the decoder reports unknown keys itself, except in a merged mapping whose
+			// key is also defined by the mapping that merges it: that value is dropped
+			// before it is looked at
+			if member == nil && target.Kind() == reflect.Struct {
+				return fmt.Errorf("line %d: field %s not found in type %s", key.Line, key.Value, target)
+			}
+
+			if err := checkDocumentShape(node.Content[i+1], member); err != nil {
 				return err
 			}
 		}
